@@ -258,7 +258,7 @@ impl Prop for C16 {
 		"A scenario is a writer history without failing values (fixed sync marker) executed once against an accept-everything sink (baseline stream B), then against every configuration of the enumerated space: \
 		 Fixed(k) for k in {1,2,3,5,7,15,16,17,19,20,21,4096} and a random 3-cycle, each with a sink that implements write_vectored (accepting across slice boundaries) and one that only implements write; \
 		 on two base plans: ErrorKind::Interrupted at EVERY sink call index (singly and in bursts of 3); a hard error (Other | BrokenPipe | StorageFull) and Ok(0) at EVERY sink call index (capped at fault_cap indices per base plan on long streams, then the first 24 + evenly spread). \
-		 An evaluation is one complete history executed against one sink configuration. Non-trivial = a partial accept or a fault fired; distinct = distinct (fault kind, class of the call hit: file-header | block-header | block-data | block-sync | plain-write, vectored?, slice in which the first partial accept ended, outcome). Vectored sinks also accept exactly n whole slices; an Interrupted at i may be followed by a hard error at j > i; after a CLEAN hard failure (nothing of the call accepted) the history goes on against the recovered sink and the final stream must be the baseline's or, judged by the reference parser, a valid file holding every other call's values in order plus all or none of the failed call's (serialize_all excepted: it stops at the failing item by contract). Five more configurations interrupt every 2nd / 3rd / 5th sink call over the WHOLE life of the writer (the number of interruptions grows with the history: hundreds to thousands). One workload in forty is a LONG history (250-400 values, a block per value or every few values). One workload in fifty is a big-blob workload (block sizes across the 8 / 32 / 64 KiB marks, contents from all zeros to incompressible). One workload in twelve carries a block of several KiB."
+		 An evaluation is one complete history executed against one sink configuration. Non-trivial = a partial accept or a fault fired; distinct = distinct (fault kind, class of the call hit: file-header | block-header | block-data | block-sync | plain-write, vectored?, slice in which the first partial accept ended, outcome). Vectored sinks also accept exactly n whole slices; an Interrupted at i may be followed by a hard error at j > i; after a CLEAN hard failure (nothing of the call accepted) the history goes on against the recovered sink and the final stream must be the baseline's or, judged by the reference parser, a valid file holding every other call's values in order plus all or none of the failed call's (serialize_all excepted: it stops at the failing item by contract). Five more configurations interrupt every 2nd / 3rd / 5th sink call over the WHOLE life of the writer (the number of interruptions grows with the history: hundreds to thousands). One workload in forty is a LONG history (250-400 values, a block per value or every few values). One workload in twenty-five is a big-blob workload (block sizes across the 8 / 32 / 64 KiB marks, contents from all zeros to incompressible). One workload in twelve carries a block of several KiB."
 	}
 	fn assumptions(&self) -> Vec<String> {
 		vec![
@@ -268,7 +268,7 @@ impl Prop for C16 {
 		]
 	}
 	fn expected_probes(&self) -> Vec<&'static str> {
-		vec!["fault_hard_error_fired", "fault_interrupted_fired", "fault_zero_accept_fired", "sink_partial_accepts", "sink_partial_accept_across_vectored_slices", "clean_sink_failure_then_history_continued"]
+		vec!["big_blob_workload", "long_history", "fault_hard_error_fired", "fault_interrupted_fired", "fault_zero_accept_fired", "sink_partial_accepts", "sink_partial_accept_across_vectored_slices", "clean_sink_failure_then_history_continued"]
 	}
 	fn budget(&self, tier: Tier) -> (u64, u64) {
 		match tier {
@@ -287,7 +287,7 @@ impl Prop for C16 {
 			push_ops: true,
 			scale: 1,
 		};
-		let mut spec = if rng.chance(1, 50) {
+		let mut spec = if rng.chance(1, 25) {
 			// blocks whose (compressed) size lands on or next to the encoders' 32 KiB / 64 KiB buffer marks and the 8 KiB
 			// marks: whatever is written differently when a buffer is exactly full goes through every sink schedule too
 			let codec = container::gen_codec(rng, true);
@@ -300,7 +300,7 @@ impl Prop for C16 {
 		};
 		spec.end = End::IntoInner;
 		// one workload in twelve carries a block of several KiB, so that a write takes many partial accepts
-		if !spec.ops.iter().any(|o| matches!(o, container::Op::Many { .. })) && (spec.schema == crate::ast::Ty::Bytes || rng.chance(1, 12)) {
+		if !spec.ops.iter().any(|o| matches!(o, container::Op::Many { .. } | container::Op::Blob { .. })) && (spec.schema == crate::ast::Ty::Bytes || rng.chance(1, 12)) {
 			spec.schema = crate::ast::Ty::Bytes;
 			spec.ops = vec![
 				container::Op::Blob { len: 100 + rng.below(300) as u32, seed: rng.next_u64(), compressible: true },
@@ -322,6 +322,9 @@ impl Prop for C16 {
 	fn exec(&self, scn: &Scn) -> Outcome {
 		let mut out = Outcome::default();
 		container::count_scale(&scn.spec, &mut out);
+		if scn.spec.ops.iter().any(|o| matches!(o, container::Op::Blob { len, .. } if *len > 20_000)) {
+			out.count("big_blob_workload", 1);
+		}
 		let expanded = scn.spec.expanded();
 		let spec = &*expanded;
 		let base_cfg = SinkCfg {
